@@ -1,9 +1,13 @@
 package el
 
 import (
+	"fmt"
 	"regexp"
 	"strings"
 )
+
+// maxReplaceRounds bounds ReplaceAllContent so that self-referencing values end in an error
+const maxReplaceRounds = 1000
 
 type Helper interface {
 	MatchString(s string) bool
@@ -37,10 +41,13 @@ func (e *elHelper) content(elr string) string {
 
 func (e *elHelper) ReplaceAllContent(s string, f func(content string) (string, error)) (string, error) {
 	var result = s
-	for true {
+	for round := 0; ; round++ {
 		elr := e.FindString(result)
 		if elr == "" {
 			break
+		}
+		if round >= maxReplaceRounds {
+			return "", fmt.Errorf("expression '%s' is not resolved after %d replacements, possible circular reference", s, maxReplaceRounds)
 		}
 		r, err := f(e.content(elr))
 		if err != nil {
